@@ -68,7 +68,7 @@ Apply(e, ok) ==
 
 WireClauses == {"InOrderOnce", "StartsAtFirstHit", "PagesWithinLimit", "NoRequestAfterEmptyPage", "NoUseAfterClear",
                 "LatestScrollId", "LatestPitId", "SearchAfterChain", "NothingAfterError", "NoSearchOnClosedPit", "RequestShape"}
-CallClauses == {"Complete", "ScrollCleared", "MetaFaithful", "NoSuccessOnFailure", "ErrOnlyIfRequestFailed", "OneCallAtATime",
+CallClauses == {"Complete", "PageCount", "ScrollCleared", "MetaFaithful", "NoSuccessOnFailure", "ErrOnlyIfRequestFailed", "OneCallAtATime",
                 "PitClosedOnSuccess"}
 L1Clauses == WireClauses \cup CallClauses \cup {"EsBooks"}
 
@@ -89,6 +89,7 @@ HoldsOn(c, mode) ==
       [] c = "NoSearchOnClosedPit" -> NoSearchOnClosedPitOn(PosW(mode))'
       [] c = "RequestShape" -> RequestShapeOn(PosW(mode))'
       [] c = "Complete" -> CompleteOn(PosC(mode))'
+      [] c = "PageCount" -> PageCountOn(PosC(mode))'
       [] c = "ScrollCleared" -> ScrollClearedOn(PosC(mode))'
       [] c = "MetaFaithful" -> MetaFaithfulOn(PosC(mode))'
       [] c = "NoSuccessOnFailure" -> NoSuccessOnFailureOn(PosC(mode))'
